@@ -199,8 +199,8 @@ def rounds_level(run):
         sc = bc.with_hits(run, bc.SCENARIOS[name])
         hs = bc.simulate(run, name + "x", sc, num, 20, env_all=False, max_rounds=8)
         behs += bc.round_behaviours(sc, hs, name + ":tlc-sim")
-        syst = bc.systematic_rounds(sc, name)
-        behs += syst if systematic else syst[:12]
+        # quick tier: the second scenario gets the two environment actions that shrink a budget during the wait
+        behs += bc.systematic_rounds(sc, name) if systematic else bc.systematic_rounds(sc, name, ["NotReady", "DeleteClaim"], [])
     bpath = os.path.join(run.work, "budget-round-behs.json")
     json.dump(behs, open(bpath, "w"))
     out = json.loads(run.drv("budgets-rounds", ["-in", bpath, "-out", os.path.join(run.work, "traces-rounds"), "-shards", 8]))
